@@ -336,6 +336,13 @@ class ModelsMixin(object):
     def getitem(self, c, k):
         from .interp import SymSlice
         from .seqs import SymDict
+        from .extmodels import SSplit
+        if isinstance(c, SSplit):
+            if k != 0:
+                self.unsupported("element %r of a split of symbolic text" % (k,))
+            t, sep = str_term(c.s), z3.StringVal(c.sep)
+            idx = z3.IndexOf(t, sep, 0)
+            return SStr(z3.If(idx < 0, t, z3.SubString(t, 0, idx)))
         if isinstance(c, SymDict):
             return c.get(self, k, _MISSING)
         if isinstance(c, SObj):
@@ -1002,7 +1009,10 @@ class ModelsMixin(object):
             self.eng.externals_used.add("str.%s (uninterpreted, length-preserving)" % name)
             return SStr(r)
         if name == "split":
-            self.unsupported("str.split on symbolic data")
+            from .extmodels import SSplit
+            if len(args) != 1 or is_sym(args[0]) or not isinstance(args[0], str) or not args[0]:
+                self.unsupported("str.split variant on symbolic data")
+            return SSplit(recv, args[0])
         if name == "isdigit":
             self.unsupported("str.isdigit on symbolic data")
         self.unsupported("str.%s on symbolic data" % name)
